@@ -108,6 +108,13 @@ def gen_random(rng, index, tier):
         "pre_profiler": rng.choice(["none", "none", "recorder", "outer"]),
         "block_exit": rng.choice(["normal", "normal", "exception"]),
     }
+    if rng.random() < 0.25:
+        plan["real_logger"] = True       # the real CallTraceStoreLogger + SQLiteStore behind the fault tee
+    if faults["inspect"] and rng.random() < 0.5:
+        faults["inspect"] = rng.choice([1, 1, 2, 3, 6])   # transient: only the first n hook invocations raise
+    if rng.random() < 0.1 and len(script) > 1:
+        # the program ends a profiled section of its own with sys.setprofile(None) somewhere inside the block
+        script.insert(rng.randrange(1, len(script) + 1), {"a": "pyreset", "catch": True})
     if rng.random() < 0.15:
         # a worker thread started inside the traced block that outlives it: parked until the block has exited, then it runs fixture code
         kn2 = dict(kn, tw_p=0, rnd_p=0, aio_p=0, top_max=4, budget=8)
@@ -137,16 +144,33 @@ def sample_view(plan):
 
 
 class FaultLogger(c02.TeeLogger):
-    def __init__(self, faults):
+    """Tee with the fault plan; optionally in front of the real CallTraceStoreLogger on a real SQLite store."""
+
+    def __init__(self, faults, inner=None):
         super().__init__(faults.get("log") or ())
         self.flush_raises = bool(faults.get("flush"))
         self.flush_fired = 0
+        self.inner = inner
+
+    def log(self, trace):
+        super().log(trace)
+        if self.inner is not None:
+            self.inner.log(trace)
 
     def flush(self):
         self.flushes += 1
         if self.flush_raises:
             self.flush_fired += 1
             raise OSError("injected: flush failed (database is locked)")
+        if self.inner is not None:
+            self.inner.flush()
+
+
+def real_store_logger(workdir):
+    from monkeytype.db.base import CallTraceStoreLogger
+    from monkeytype.db.sqlite import SQLiteStore
+
+    return CallTraceStoreLogger(SQLiteStore.make_store(os.path.join(workdir, "c03.sqlite3")))
 
 
 BUILTIN_ATOMS = (int, str, bool, float, bytes, type(None))
@@ -220,7 +244,14 @@ def run_once(plan, lp, traced):
     top = mat.script(plan["script"])
     mat_hj = list(TW.HJ)  # hooks run while building values (dict keys etc.): identical in both executions
     faults = plan["faults"]
-    logger = FaultLogger(faults)
+    inner = None
+    workdir = None
+    if plan.get("real_logger") and traced:
+        from dst.world import e2e as _E
+
+        workdir = _E.new_workdir()
+        inner = real_store_logger(workdir)
+    logger = FaultLogger(faults, inner)
     flt, admitted = c02.make_filter(plan, lp)
     obs = {"exc": None, "profiler_ok": True, "outer_flushes": None, "tracer": None}
     pre = plan["pre_profiler"]
@@ -251,15 +282,17 @@ def run_once(plan, lp, traced):
                 obs["tracer"] = sys.getprofile()
                 D.run_top(top)
                 start_worker()
+                obs["hj_body_end"] = len(TW.HJ)
                 if plan["block_exit"] == "exception":
                     raise rt.SimError("block")
         else:
             D.run_top(top)
             start_worker()
+            obs["hj_body_end"] = len(TW.HJ)
             if plan["block_exit"] == "exception":
                 raise rt.SimError("block")
 
-    TW.ARMED[0] = bool(faults.get("inspect"))
+    TW.ARMED[0] = faults.get("inspect") or False   # True: every hook raises; n: only the first n invocations
     try:
         try:
             if pre == "recorder":
@@ -302,6 +335,18 @@ def run_once(plan, lp, traced):
             raise RuntimeError("harness: worker thread did not finish")
         obs["thread_prof"] = th["prof"]
     obs["hj"] = list(TW.HJ)[len(mat_hj):]  # snapshot before the harness itself looks at any value
+    obs["hj_body"] = (obs["hj_body_end"] if obs.get("hj_body_end") is not None else len(TW.HJ)) - len(mat_hj)
+    obs["last_raise"] = TW.LAST_RAISE[0]
+    obs["reset_at"] = mat.notes.get("reset_at")
+    if inner is not None:
+        try:
+            inner.store.conn.close()
+        except Exception:
+            pass
+    if workdir is not None:
+        import shutil
+
+        shutil.rmtree(workdir, ignore_errors=True)
     obs["journal"] = list(rt.J)
     obs["summary"] = journal_summary(rt.J)
     obs["mat_hj"] = mat_hj
@@ -420,10 +465,22 @@ def execute(plan):
              "the traced block exits with %r, the untraced one with %r" % (B["exc"], A["exc"]))
     # --- no-user-code
     evaluated += 1
-    extra, missing = multiset_extra(A["hj"], B["hj"])
+    extra, missing = multiset_extra(A["hj"][:A["hj_body"]], B["hj"][:B["hj_body"]])
+    extra_exit, missing_exit = multiset_extra(A["hj"][A["hj_body"]:], B["hj"][B["hj_body"]:])
+    missing = missing + missing_exit
     if A["mat_hj"] != B["mat_hj"]:
         extra = extra + [("materialisation", "differs", None)]
     seen_causes = set()
+    # hooks that ran while the context was exiting (flush -> serialisation of the logged traces by the real store logger): the
+    # listed metaclass finding covers the membership test on typing aliases there, whatever position the class was traced at
+    for e in extra_exit:
+        cause = classify_hook(e, bool(plan.get("real_logger")))
+        key = ("exit", cause, e[1] if cause is None else None)
+        if key in seen_causes:
+            continue
+        seen_causes.add(key)
+        viol("C03.no-user-code", cause, {"hook": e[1], "detail": e[2], "oid": e[0], "phase": "context exit"},
+             "the tracer executed user code while the context exited: %s(%s) ran only in the traced execution" % (e[1], e[2]))
     # without a code filter the tracer also types the arguments of the simulator's own frames, which carry every materialised value
     meta_explained = True if plan["filter"] == "none" or "MIcls" in (plan["prog"].get("global_tw") or ()) or not any(e[1].startswith("Meta.") for e in extra) else meta_hooks_explained(B["journal"], lp)
     for e in extra:
@@ -441,7 +498,8 @@ def execute(plan):
     if not B["profiler_ok"]:
         viol("C03.profiler-restored", None, {"pre_profiler": plan["pre_profiler"], "block_exit": plan["block_exit"], "faults": faults},
              "after the tracing context exited, sys.getprofile() is not the previously installed profiler")
-    if not A["profiler_ok"]:
+    if not A["profiler_ok"] and A["reset_at"] is None:
+        # (with its own sys.setprofile(None) the untraced program legitimately ends without the pre-installed profiler)
         raise AssertionError("harness: profiler changed in the untraced execution")
     if B["threading_prof_after"] is not B["threading_prof_before"]:
         viol("C03.profiler-restored", None, {"what": "threading profile hook"}, "after the tracing context exited, the process-wide threading profile hook is not what it was before")
@@ -461,11 +519,17 @@ def execute(plan):
         viol("C03.flush-once", None, {"outer_flushes": B["outer_flushes"]}, "the outer context's logger was flushed %d times" % B["outer_flushes"])
     # --- progress: every completed definite call is still handed to log (exactly one attempt)
     n_tw = sum(1 for rec in B["journal"] if rec[0] == "E" and any(TW.oid_of(x) is not None for x in rec[3].values() if type(x).__module__ == "dst.world.tripwires"))
-    if not faults.get("inspect") and not plan["prog"].get("proxied"):
-        TVs, ev, info, calls, comps, matched = TT.check(lp, B["journal"][:B["j_exit"]], lg.logs[:B["logs_at_exit"]], plan["k"], get_type, prefix="C03", admitted=B["admitted"])
+    if faults.get("inspect") is not True and not plan["prog"].get("proxied"):
+        j_end = B["j_exit"] if B["reset_at"] is None else min(B["j_exit"], B["reset_at"])   # nothing is traced after the program's own setprofile(None)
+        n_logs = B["logs_at_exit"] if B["reset_at"] is None else sum(1 for tr, pos in lg.logs if pos <= B["reset_at"])
+        TVs, ev, info, calls, comps, matched = TT.check(lp, B["journal"][:j_end], lg.logs[:n_logs], plan["k"], get_type, prefix="C03", admitted=B["admitted"])
         evaluated += len(comps)
         for v in TVs:
             if v["clause"] in ("C03.once", "C03.order"):
+                # transient inspection fault: calls that had started before the last hook raised may legitimately have lost
+                # their trace; once the fault has stopped, every later call must be handed to the logger again
+                if faults.get("inspect") and (B["last_raise"] is None or v["site"].get("cid") is None or v["site"]["cid"] <= B["last_raise"]):
+                    continue
                 v["clause"] = "C03.progress"
                 V.append(v)
     fired = {}
@@ -486,6 +550,12 @@ def execute(plan):
         probes["callable proxy bound to a module global"] = 1
     if plan["prog"].get("global_tw"):
         probes["tripwire objects bound to module globals"] = 1
+    if plan.get("real_logger"):
+        probes["real CallTraceStoreLogger + SQLite store behind the fault tee"] = 1
+    if B["reset_at"] is not None:
+        probes["program called sys.setprofile(None) inside the block"] = 1
+    if faults.get("inspect") not in (None, False, True) and B["last_raise"] is not None:
+        probes["transient inspection fault (hooks raise only at first)"] = 1
     if plan.get("thread"):
         probes["thread started inside the block runs fixture code after the context exited"] = 1
     if plan.get("enumerated"):
